@@ -7,7 +7,7 @@ from math import factorial
 
 from . import e2_formula as F
 from .core import AnchorError, Unsupported
-from .e1_srcmodel import dotted, walk_no_nested
+from .e1_srcmodel import dotted, walk_no_nested, utext
 from .e2_eval import Evaluator, is_unknown, need, const_from_node
 
 EXPM = "pyyeti/expmint.py"
@@ -345,12 +345,12 @@ def r3_squaring(ctx):
     ctx.check(ok, "expmint: the Pade helper works on A*h", helper[0] if helper else fn)
     # Return(): E from (U, V), I from (P, Q), I2 from _geti2 with the same h
     ret = ctx.src.func(EXPM, "expmint.Return")
-    txt = ast.unparse(ret).replace(" ", "")
+    txt = utext(ret)
     ok = "E=mf._solve_P_Q(U,V,structure=structure)" in txt and "I=_solve_P_Q_2(P,Q,structure=structure)" in txt \
         and "_geti2(H,E,I,h,pade)" in txt
     ctx.check(ok, "expmint.Return: E = solve(V-U, V+U), I = solve(Q, P), I2 = _geti2(H, E, I, h, pade)", ret)
     sp = ctx.src.func(EXPM, "_solve_P_Q_2")
-    calls = [ast.unparse(c).replace(" ", "") for c in ast.walk(sp) if isinstance(c, ast.Call)]
+    calls = [utext(c) for c in ast.walk(sp) if isinstance(c, ast.Call)]
     ok = "mf.spsolve(Q,P)" in calls and "mf.solve(Q,P)" in calls and "mf.solve_triangular(Q,P)" in calls
     ctx.check(ok, "_solve_P_Q_2 solves Q X = P on all three structures", sp, calls)
 
@@ -399,7 +399,7 @@ def r4_siblings(ctx):
                 return NotImplemented
 
             def cond(test, ev, order=order):
-                t = ast.unparse(test).replace(" ", "")
+                t = utext(test)
                 if t == "order==1":
                     return order == 1
                 if t == "order==0":
@@ -427,7 +427,7 @@ def r4_siblings(ctx):
                   None if ok else {"P": repr(P_), "Q": repr(Q_)})
     # _procBhalf
     fn = ctx.src.func(EXPM, "_procBhalf")
-    txt = ast.unparse(fn).replace(" ", "")
+    txt = utext(fn)
     ok = "P=P.dot(B)" in txt and "Q=Q.dot(B)" in txt and "P=P[:,:n]" in txt and "Q=Q[:,:n]" in txt and "n=n//2" in txt
     ctx.check(ok, "_procBhalf: B multiplies from the right; `half` keeps the first n//2 input columns of both P and Q", fn)
     # expmint_pow: unroll the series loop
